@@ -8,7 +8,7 @@
 
     * leaves: `static_is_lib`, `hole_is_lib`, `regex_is_lib`, `all_is_lib` — `l.match(segment, params, header)`;
       `all_matchAll_is_lib` — `leaf.(*matchAllLeaf).matchAll(…)`;
-    * subtrees: `regexTree_match_is_lib`, `holeTree_match_is_lib` — `st.match(segment, params)`;
+    * subtrees: `staticTree_match_is_lib`, `regexTree_match_is_lib`, `holeTree_match_is_lib` — `st.match(segment, params)`;
       `next_is_lib` — `st.matchNextSegment(…)` is the translated `baseTree.matchNextSegment` on the child's own fields;
       `C08AllTreeCode.matchAll_is_lib` — `st.(*matchAllTree).matchAll(…)`.
 -/
@@ -17,6 +17,8 @@ import Flamego.Props.C01LeafCode
 import Flamego.Props.C02TreeCode
 import Flamego.Props.C02BaseTreeCode
 import Flamego.Props.C08AllTreeCode
+import Flamego.Props.C06Code
+import Flamego.Gen.StaticTreeCode
 set_option linter.unusedSimpArgs false
 set_option linter.unusedVariables false
 namespace Flamego.C02DispatchCode
@@ -96,6 +98,24 @@ theorem holeTree_match_is_lib (key : Bytes) (t : Gen.HoleTreeCode.placeholderTre
     Lib.Tree_match E (Node.mk key (.hole t.bind) subs leaves) seg ps = (Gen.HoleTreeCode.«match» t seg ps).1 := by
   obtain ⟨h1, _, h3, _⟩ := C02TreeCode.hole_match_refines E t seg ps
   simp only [Lib.Tree_match, Node.pat, h3, h1]
+
+/-- `staticTree.match`: the segment's canonical text without its leading "/" against the request's segment — for an inner
+(non-optional) static segment that text is the literal of the model's pattern, whether or not the segment's memo is filled -/
+theorem staticTree_match_is_lib (key : Bytes) (t : Gen.StaticTreeCode.staticTree) (lit : Bytes)
+    (g : Gen.SegStringCode.Segment) (hg : t.baseTree.segment = some g) (hm : C06Code.Memo ⟨false, [.ident lit]⟩ g)
+    (subs : List Node) (leaves : List Leaf) (seg : Bytes) (ps : Params) :
+    Lib.Tree_match E (Node.mk key (.static lit) subs leaves) seg ps = ((Gen.StaticTreeCode.«match» t seg ps).1, ps)
+      ∧ (Gen.StaticTreeCode.«match» t seg ps).2 = t := by
+  have hs : Gen.StaticTreeCode.segString t.baseTree.segment = (⟨false, [.ident lit]⟩ : Flamego.Segment).render := by
+    rw [hg]; exact (C06Code.seg_string_memo _ g hm).1
+  have hr : (⟨false, [.ident lit]⟩ : Flamego.Segment).render = (47 : UInt8) :: lit := by
+    simp [Segment.render, Elem.render, C06Code.B_slash]
+  refine ⟨?_, rfl⟩
+  simp only [Lib.Tree_match, Node.pat, treeMatch, Gen.StaticTreeCode.«match», hs, hr, GoSem.sliceFrom]
+  by_cases h : lit = seg
+  · simp [h]
+  · have : (lit == seg) = false := by simpa using h
+    simp [h, this]
 
 /-- `st.matchNextSegment(path, next, params, header)` on a child is the translated `baseTree.matchNextSegment` run on the
 child's own subtrees and leaves (whenever the model does not panic) -/
